@@ -347,7 +347,7 @@ def run(ctx):
         ctx.log("depth", d + 1, "new states", len(nxt))
     ctx.cov.update({
         'states': stats['states'], 'transitions': stats['transitions'], 'traces_validated_against_impl': stats['transitions'],
-        'samples': [sample or [], ['net:A-valid', 'relay:extend-b']], 'outcome_histogram': hist, 'largest_pool': maxpool,
+        'samples': [sample or []] + [list(f) for f in frontier[:2]], 'outcome_histogram': hist, 'largest_pool': maxpool,
         'no_trace_probes': stats.get('probes', 0),
         'depth': depth, 'exhaustive': True,
         'rule': "BFS over operation sequences to depth %d (submissions via the network handler and via add_transaction_to_pool; "
